@@ -45,7 +45,7 @@ for _op in ("and", "or", "xor"):
                 HELPERLIKE += [f"{_op}_{_x}_{_y}", f"{_op}_{_x}_{_y}_0"]
 HELPERLIKE += ["not_a", "not_b", "not_a_0", "and_and_a_b_c", "xor_xor_a_b_c", "or_or_a_b_c", "and_c_and_a_b", "not_and_a_b",
                "mux_o_a_b_c", "not_xor_a_b", "not_or_a_b", "and_a_b_c", "g_0", "g_1", "tie_hi", "tie_a"]
-ESC = S.ESCAPED + ["\\g_0", "\\and", "\\1'b0", "\\a&b", "\\~n", "\\assign"]
+ESC = S.ESCAPED + ["\\a/*0*/x", "\\n//c", "\\/*", "\\*/k", "\\c//", "\\g_0", "\\and", "\\1'b0", "\\a&b", "\\~n", "\\assign"]
 
 
 def core(ctx):
@@ -133,7 +133,8 @@ def _case(draw, ctx):
                 inst[2] = {k: ren.get(v, v) for k, v in inst[2].items()}
     route = draw(st.sampled_from(["string", "string", "string", "file_suffix", "file_fmt", "file_infer", "bad_suffix", "bad_fmt"]))
     tables = draw(st.lists(st.integers(0, (1 << 64) - 1), min_size=16, max_size=16))
-    return {"spec": spec, "beh": draw(st.booleans()), "route": route, "tables": tables}
+    return {"spec": spec, "beh": draw(st.booleans()), "route": route, "tables": tables,
+            "suffix": draw(st.sampled_from([".txt", ".bench", ".sv", "", ".vh", ".BENCH"]))}
 
 
 def strategy(ctx):
@@ -187,7 +188,8 @@ def check(case, ctx):
                 need(lib(cg.to_file, c, path, behavioral=beh), "to_file", "to_file(.v)")
                 c2 = need(lib(cg.from_file, path, blackboxes=bbs), "from_file", "from_file(.v)")
             elif route == "file_fmt":
-                path = os.path.join(tdir, f"{c.name}.txt")
+                # fmt overrides the extension, whatever the extension is
+                path = os.path.join(tdir, f"{c.name}{case.get('suffix', '.txt')}")
                 need(lib(cg.to_file, c, path, fmt="verilog", behavioral=beh), "to_file", "to_file(fmt=verilog)")
                 c2 = need(lib(cg.from_file, path, fmt="verilog", blackboxes=bbs), "from_file", "from_file(fmt=verilog)")
             else:
